@@ -111,8 +111,12 @@ impl ParseAttribute for InputVariant {
             self.attr_name = FromMeta::from_meta(mi)?;
 
             // The `r#` of a raw identifier is spelling, not part of the name.
-            if let Some(bare) = self.attr_name.as_deref().and_then(|n| n.strip_prefix("r#")) {
-                self.attr_name = Some(bare.to_string());
+            if let Some(name) = self.attr_name.as_deref() {
+                let bare: Vec<_> = name
+                    .split("::")
+                    .map(|segment| segment.strip_prefix("r#").unwrap_or(segment))
+                    .collect();
+                self.attr_name = Some(bare.join("::"));
             }
         } else if path.is_ident("skip") {
             if self.skip.is_some() {
